@@ -19,14 +19,14 @@ Sources (pinned tree, /repo/src):
   `normalisation->undo(1)`, `zero_end_sinograms`), :273 `distributable_computation`;
 * buildblock/recon_array_functions.cxx :44 `SMALL_NUM`, :172 `divide_and_truncate`,
   :336 `accumulate_loglikelihood`;
-* recon_buildblock/BinNormalisation.cxx :89 `apply` (divide by `max(1e-20, efficiency)`), :105 `undo`
-  (multiply by the efficiency); BinNormalisationFromProjData.cxx :138 `apply` (multiply by the
-  normalisation factor), :149 `undo` (divide by it); ChainedBinNormalisation.cxx (first, then second);
+* recon_buildblock/BinNormalisation.cxx :91 `apply` (divide by `max(1e-20, efficiency)`), :107 `undo`
+  (multiply by the efficiency); BinNormalisationFromProjData.cxx :130 `apply` (multiply by the
+  normalisation factor), :141 `undo` (divide by it); ChainedBinNormalisation.cxx (first, then second);
 * buildblock/ProjData.cxx :256 `get_related_viewgrams(ViewgramIndices, symmetries, bool, timing_pos = 0)` and
   ProjDataInfo.cxx :458 `get_empty_related_viewgrams`: both overwrite the timing position of the indices
   by the *argument* `timing_pos`, which the two Hessian functions do not pass (see `hessReads`);
-* recon_buildblock/GeneralisedObjectiveFunction.cxx :124 `compute_penalty(…, subset)`, :132
-  `compute_sub_gradient`, :251 `compute_objective_function`;
+* recon_buildblock/GeneralisedObjectiveFunction.cxx :121 `compute_penalty(…, subset)`, :128
+  `compute_sub_gradient`, :240 `compute_objective_function`, :282 / :384 the penalised Hessian products;
 * recon_buildblock/PoissonLogLikelihoodWithLinearModelForMean.cxx :402 `set_total_or_subset_sensitivities`.
 
 The model is written once for an arbitrary carrier `K` with the usual operations; the driver runs it at
@@ -221,16 +221,20 @@ def ahessContribs (c : Consts K) (x : Nat → K) (S : List (Viewgram K)) : List 
 def approxHess (c : Consts K) (x : Nat → K) (out0 : K) (S : List (Viewgram K)) (v : Nat) : K :=
   out0 - imageAt (ahessContribs c x S) v
 
-/-- the penalised quantities of `GeneralisedObjectiveFunction` (cxx:124-160, 251): the prior's value /
+/-- the penalised quantities of `GeneralisedObjectiveFunction` (cxx:121-160, 240): the prior's value /
     gradient divided by the number of subsets is subtracted -/
 def penalised (q prior : K) (numSubsets : K) : K := q - prior / numSubsets
 
 /-- the penalised Hessian-times-input / approximate Hessian of `GeneralisedObjectiveFunction`
-    (cxx:287-309 `add_multiplication_with_approximate_sub_Hessian`, :392-413 `accumulate_sub_Hessian_times_input`)
+    (cxx:282-309 `add_multiplication_with_approximate_sub_Hessian` (:295), :384-411 `accumulate_sub_Hessian_times_input` (:397))
     *as written*: the prior's Hessian is applied to the objective function's own `output` (which at that
     point holds `q`, the unpenalised result) and not to `input`: `priorOfOutput = H_prior · q` is what is
     subtracted (divided by the number of subsets); `priorOfInput = H_prior · input` is what the property asks for. -/
 def penalisedHess (q _priorOfInput priorOfOutput : K) (numSubsets : K) : K := q - priorOfOutput / numSubsets
+
+/-- `if (subset_num < 0 || subset_num >= this->get_num_subsets()) error(…)` (GeneralisedObjectiveFunction.cxx:136, :232):
+    is the subset number accepted -/
+def subsetAccepted (numSubsets subset : Int) : Bool := !(subset < 0 || subset ≥ numSubsets)
 
 /-- subset sensitivity when `use_subset_sensitivities` is off (`set_total_or_subset_sensitivities`):
     the total divided by the number of subsets -/
@@ -245,6 +249,16 @@ end Quantities
     forward projections and the back projection are those of TOF bin 0 of the same (segment, view).
     `tof0 id` = id of the viewgram with the same segment and view at timing position 0. -/
 def hessReads (tof0 : Nat → Nat) (S : List Nat) : List Nat := S.map tof0
+
+/-- The viewgram ids whose geometry (rows) the sensitivity back-projects for a subset given as viewgram ids `S`:
+    when the normalisation is trivial and `zero_seg0_end_planes` is set, `get_viewgrams` creates the multiplicative
+    viewgrams (ones, end planes cleared) with `get_empty_related_viewgrams(view_segment_num, symmetries_ptr)`
+    (distributable.cxx:214-215), i.e. without `timing_pos_num`: they are viewgrams of timing position 0, and they
+    are what `RPC_process_related_viewgrams_sensitivity_computation` hands to the back projector.  In all other cases
+    the multiplicative viewgrams are created for the timing position of the loop (distributable.cxx:203-204) or the
+    data viewgrams themselves are back-projected. -/
+def sensReads (trivialNorm zero : Bool) (tof0 : Nat → Nat) (S : List Nat) : List Nat :=
+  if trivialNorm && zero then S.map tof0 else S
 
 /-! ## The set-up flags -/
 
